@@ -60,6 +60,9 @@ type undoRec struct {
 	p   *value
 	old value
 	f   func()
+	// benign: a balanced engine-state change (lock/unlock) that does not
+	// prevent merging the region it occurs in
+	benign bool
 }
 
 func (fr *frame) get(key ssa.Value) value {
@@ -265,6 +268,16 @@ func (e *Engine) ensureInit(pkg *ssa.Package) {
 		e.callSSA(nil, token.NoPos, init, nil, nil)
 	}()
 	e.pkgInit[pkg] = 2
+	// Packages are initialised lazily (on first use of one of their
+	// globals); registrations made by init functions of *other* packages
+	// would be missed. The crypto hash registry is the one go-git relies on.
+	if pkg.Pkg.Path() == "crypto" {
+		for _, dep := range []string{"crypto/sha1", "crypto/sha256", "crypto/sha512", "crypto/md5", "github.com/pjbgf/sha1cd"} {
+			if p := e.prog.ImportedPackage(dep); p != nil {
+				e.ensureInit(p)
+			}
+		}
+	}
 }
 
 func (e *Engine) noteInitProblem(pkg *ssa.Package, msg string) {
